@@ -173,7 +173,42 @@ def check_divisions(rep, fb, rule):
         rep.check(ok1, rule, 'evaluateExpr|%s|minus one' % d['op'], locstr(d), 'integer %s with divisor `%s`: the divisor -1 %s' % (d['op'], fb.text(d['c'][1]), 'is handled before the operator' if ok1 else 'REACHES the operator: INT_MIN %s -1 overflows (SIGFPE on x86)' % d['op']))
 
 
+def check_element_accessor(rep, fb, rule):
+    """Data::operator[](size_t), the accessor both array paths end in, returns an element that exists: the growth loop runs while
+    size <= index (with `size < index` the walk of `index` steps ends on end() for every index >= size)"""
+    acc = None
+    for f in fb.funcs.values():
+        if f.q == 'uscxml::Data::operator[]' and f.d.get('params') and 'size_t' in (f.d['params'][0].get('t') or '') and f.d.get('body'):
+            acc = f
+    if acc is None:
+        raise AnalysisBroken('Data::operator[](size_t) not found')
+    loops = [n for n in acc.walk() if n['k'] == 'WhileStmt' and any(x.get('callee', {}).get('q', '').endswith('::size') for x in sub(n['c'][0]))]
+    if not loops:
+        # no growth at all: then the walk must be bounded some other way; not an idiom this rule knows
+        raise AnalysisBroken('Data::operator[](size_t): growth loop not found')
+    for lp in loops:
+        c = strip(lp['c'][0])
+        ok = False
+        why = fb.text(c)
+        if c['k'] == 'BinaryOperator' and c.get('op') in ('<', '<=', '>', '>='):
+            l, r = strip(c['c'][0]), strip(c['c'][1])
+            l_size = any(x.get('callee', {}).get('q', '').endswith('::size') for x in sub(l))
+            r_size = any(x.get('callee', {}).get('q', '').endswith('::size') for x in sub(r))
+            plus1 = lambda e: e['k'] == 'BinaryOperator' and e.get('op') == '+' and tab.const_of(e['c'][1]) == 1
+            if l_size and c['op'] == '<=' and not plus1(r):
+                ok = True
+            elif l_size and c['op'] == '<' and plus1(r):
+                ok = True
+            elif r_size and c['op'] == '>=' and not plus1(l):
+                ok = True
+            elif r_size and c['op'] == '>' and plus1(l):
+                ok = True
+        rep.check(ok, rule, 'Data::operator[](size_t)|element exists', locstr(lp), 'the list grows while `%s`: afterwards %s' % (
+            ' '.join(why.split()), 'size > index, the element exists' if ok else 'only size >= index is known: for index == size the returned reference is *end() (a write corrupts the list, observed as SIGSEGV)'))
+
+
 def check_index_bounds(rep, fb, rule):
+    check_element_accessor(rep, fb, rule)
     """array index computations in PromelaDataModel::get/setVariable are rejected below 0 and from the declared size on"""
     # array index guards
     idx_sites = 0
